@@ -1172,3 +1172,144 @@ def c18(scn):
                 fails.append(("mesh_node_share", "node %d: area %r, circumcentric share %r" % (i, areas[i], float(share[i]))))
                 break
     return fails[:20]
+
+
+# ----------------------------------------------------------------------------- C12 / C13
+
+def _spl_calls(scn):
+    """-> list of (call, graph view of the last update, mask, seeds, ops, parameters)"""
+    topo = Topo(scn)
+    n = topo.n
+    last = None
+    out = []
+    for call in scn.calls:
+        if call.cmd == "update" and call.O.get("update") == ["ok"]:
+            last = call
+        if call.cmd == "spl" and last is not None and call.i("spl") is not None:
+            row = call.i("spl")
+            kind = row[0]
+            nk = 1 if kind == "s" else n
+            ks = [unhx(x) for x in row[1:1 + nk]]
+            K = ks * n if kind == "s" else ks
+            r = [unhx(x) for x in row[1 + nk:]]
+            par = dict(K=K, m=r[0], n=r[1], tol=r[2], dt=r[3], area=r[4:4 + n], elev=r[4 + n:4 + 2 * n])
+            mask, seeds, ops, _ = env_of(last, n)
+            out.append((call, GraphView(last, n), mask, seeds, ops, par, n))
+    return out
+
+
+def _flooded(z, e, recv):
+    fl = DBL_MAX
+    for r in recv:
+        nxt = z[r] - e[r]
+        if nxt < fl:
+            fl = nxt
+    return fl
+
+
+def c12(scn):
+    fails = []
+    for call, g, mask, seeds, ops, par, n in _spl_calls(scn):
+        multi = any(o.startswith("multi") for o in ops) and last_router(ops).startswith("multi")
+        nexp = par["n"]
+        if multi and abs(nexp - 1) > EPS:
+            if call.O.get("spl") != ["err", "invalid_argument"]:
+                fails.append(("spl_rejects_multi_nonlinear", "slope exponent %r on a multiple-direction graph was accepted" % nexp))
+            continue
+        if "erosion" not in call.O or not g.ok:
+            if call.O.get("spl", [""])[0] == "err":
+                fails.append(("spl_accepts_valid_parameters", "n=%r ops=%s: %s" % (nexp, ops, call.O.get("spl"))))
+            continue
+        e = [unhx(x) for x in call.O["erosion"]]
+        z = par["elev"]
+        if any(math.isnan(x) or math.isinf(x) for x in e):
+            fails.append(("erosion_finite", "NaN/inf erosion"))
+            continue
+        for i in range(n):
+            recv = g.recv[i]
+            if recv == [i]:
+                if e[i] != 0.0:
+                    fails.append(("spl_zero_at_terminal", "terminal node %d (base level / pit / masked) has erosion %r" % (i, e[i])))
+                continue
+            fl = _flooded(z, e, recv)
+            if z[i] <= fl:
+                if e[i] != 0.0:
+                    fails.append(("spl_zero_in_lakes", "node %d at %r is not above its lowest receiver's new level %r but erosion is %r" % (i, z[i], fl, e[i])))
+                continue
+            allow = 4 * EPS * (abs(z[i]) + abs(fl) + abs(e[i])) + 4 * DBL_MIN
+            if e[i] < -allow:
+                fails.append(("spl_nonneg", "node %d: erosion %r" % (i, e[i])))
+            if (z[i] - e[i]) < fl - allow:
+                fails.append(("spl_floor", "node %d: new elevation %r below the lowest new receiver elevation %r" % (i, z[i] - e[i], fl)))
+    return fails[:20]
+
+
+def c13(scn):
+    fails = []
+    for call, g, mask, seeds, ops, par, n in _spl_calls(scn):
+        if "erosion" not in call.O or not g.ok:
+            continue
+        e = [unhx(x) for x in call.O["erosion"]]
+        z = par["elev"]
+        nexp, mexp, dt, tol = par["n"], par["m"], par["dt"], par["tol"]
+        if nexp <= 0 or any(math.isnan(x) or math.isinf(x) for x in e):
+            continue
+        linear = abs(nexp - 1) <= EPS
+        for i in range(n):
+            recv = g.recv[i]
+            if recv == [i]:
+                continue
+            fl = _flooded(z, e, recv)
+            if z[i] <= fl:
+                continue
+            zi1 = z[i] - e[i]
+            allow = 8 * EPS * (abs(z[i]) + abs(fl) + abs(e[i])) + 8 * DBL_MIN
+            if zi1 <= fl + allow:
+                continue        # erosion was limited (clamped to the floor): excluded by the property
+            R = zi1 - z[i]
+            scale = abs(z[i]) + abs(e[i])
+            ok = True
+            for r, w, d in zip(recv, g.rweight[i], g.rdist[i]):
+                if z[r] > z[i]:
+                    continue
+                zr1 = z[r] - e[r]
+                delta = zi1 - zr1
+                if delta < 0:
+                    ok = False      # receiver's new level above the node's: outside the solved branch
+                    break
+                try:
+                    F_ = par["K"][i] * dt * math.pow(par["area"][i] * w, mexp)
+                    term = F_ * math.pow(delta / d, nexp) if delta > 0 else 0.0
+                    sens = F_ * nexp * (math.pow(delta / d, nexp - 1) / d if delta > 0 else (1.0 / d if nexp == 1 else 0.0))
+                except (OverflowError, ValueError, ZeroDivisionError):
+                    ok = False
+                    break
+                R += term
+                # the API returns erosion; new elevations are z - e, whose rounding error is eps*(|z|+|e|)
+                scale += abs(term) + sens * (abs(z[i]) + abs(e[i]) + abs(z[r]) + abs(e[r]))
+            if not ok:
+                continue
+            bound = (0.0 if linear else tol * (1 + 1e-9)) + 64 * EPS * scale + 1e-300
+            if abs(R) > bound:
+                fails.append(("spl_residual", "node %d (n=%r, m=%r, dt=%r): residual of the implicit equation %r exceeds %r" % (i, nexp, mexp, dt, R, bound)))
+    return fails[:20]
+
+
+def spl_cause(scn, fail):
+    """n < 1 handled as linear / one-sided Newton exit (D7) vs anything else"""
+    clause, wit = fail
+    calls = _spl_calls(scn)
+    if clause in ("erosion_finite", "terminates", "spl_nonneg", "spl_floor", "spl_residual") and \
+            any(abs(x) >= 1e150 for _c, _g, _m, _s, _o, par, _n in calls for x in par["elev"]):
+        return "overflow"
+    if clause == "terminates":
+        # a hung call prints nothing: look at the scenario's own spl lines
+        for c in scn.calls:
+            if c.cmd == "spl" and any(len(t) == 16 and t[0] in "7f" and t[:3] >= "5f3" and t[:3] <= "7fe" for t in c.toks[2:]):
+                return "overflow"
+    ns = set(par["n"] for _c, _g, _m, _s, _o, par, _n in calls)
+    if clause in ("spl_residual", "spl_rejects_multi_nonlinear") and any(x < 1 for x in ns) and "n=" in wit and float(wit.split("n=")[1].split(",")[0].rstrip(")")) < 1:
+        return "exponent_below_one"
+    if clause == "spl_rejects_multi_nonlinear" and "exponent 0." in wit:
+        return "exponent_below_one"
+    return "other"
